@@ -1,7 +1,8 @@
 (* buildrun: runs the extracted builder model (Builder.v) and the specification (Spec.v) on the sessions the
    implementation ran (impl/drv/builddrv.cpp) and compares what an observer sees.
 
-   input : (id build (opts INITIAL RESIZE_PERCENT) (cmds CMD...) [(vals V...)] [(impl ok (events..) (final..)) | (impl crash|timeout|err C)])
+   input : (id build (opts INITIAL RESIZE_PERCENT) (cmds CMD...) [(vals V...) | (valsafterclear V...)]
+                    [(impl ok (events..) (final..)) | (impl crash|timeout|err C)])
    output: (id VERDICT (k v)...)   VERDICT in
      agree      implementation = model (= specification where one is given)
      viol       implementation differs from the specification / from itself (snapshot changed) / crashed / the model
@@ -169,11 +170,22 @@ let verdict (id : string) (rest : Sx.t list) : string =
   let vals = (match find_field "vals" rest with Some (L (_ :: vs)) -> Some (List.map pyval_of_sx vs) | _ -> None) in
   let mev = model_events o cmds in
   (* the specification: only for sessions that are the encoding of well-formed values *)
+  (* (valsafterclear V...): the session is  <anything> clear <encoding of V... with snapshots> ; the specification
+     applies to what follows the last clear *)
+  let after_clear = (match find_field "valsafterclear" rest with Some (L (_ :: vs)) -> Some (List.map pyval_of_sx vs) | _ -> None) in
+  let rec drop_to_last_clear l acc = match l with
+    | [] -> acc
+    | SClear :: t -> drop_to_last_clear t t
+    | _ :: t -> drop_to_last_clear t acc in
+  let vals, spec_cmds = (match vals, after_clear with
+      | Some vs, _ -> Some vs, cmds
+      | None, Some vs -> Some vs, drop_to_last_clear cmds cmds
+      | None, None -> None, cmds) in
   let spec = (match vals with
       | None -> None
       | Some vs ->
         let enc = List.map (fun c -> SC c) (encode_all vs) in
-        let plain = List.filter (function SC _ -> true | _ -> false) cmds in
+        let plain = List.filter (function SC _ -> true | _ -> false) spec_cmds in
         if List.length enc <> List.length plain || not (List.for_all2 scmd_eq enc plain) then bad "cmds are not the encoding of vals";
         if not (List.for_all pywf vs) then bad "vals not well-formed";
         Some (OVal (VList (unify vs)))) in
@@ -235,7 +247,8 @@ let verdict (id : string) (rest : Sx.t list) : string =
      | None -> ()
      | Some sp ->
        let last_impl = List.fold_left (fun acc e -> match e with OS s -> Some s | _ -> acc) None iev in
-       let ierrs = List.filter_map (function OE (p, c) -> Some (Printf.sprintf "%d:%s" p c) | _ -> None) iev in
+       let first_pos = List.length cmds - List.length spec_cmds in
+       let ierrs = List.filter_map (function OE (p, c) when p >= first_pos -> Some (Printf.sprintf "%d:%s" p c) | _ -> None) iev in
        (match last_impl with
         | None -> ()
         | Some s ->
